@@ -121,7 +121,7 @@ func contractMentions(c *Contract, id string) bool {
 	if hasTag(c.Tags, id) {
 		return true
 	}
-	for _, cl := range append(append([]*Clause{}, c.Requires...), c.Ensures...) {
+	for _, cl := range append(append(append([]*Clause{}, c.Requires...), c.Ensures...), c.OnPanic...) {
 		if hasTag(cl.Tags, id) {
 			return true
 		}
